@@ -253,6 +253,7 @@ class Recorder:
         self.samples = []
         self.violations = []    # dict(key, what, replay)
         self.counters = {}
+        self.sets = {}          # name -> set (merged by union; sizes are reported)
         self.notes = []
         self.tool_errors = []
 
@@ -274,6 +275,9 @@ class Recorder:
     def count(self, name, n=1):
         self.counters[name] = self.counters.get(name, 0) + n
 
+    def add(self, name, items):
+        self.sets.setdefault(name, set()).update(items)
+
     def note(self, s):
         if len(self.notes) < 50:
             self.notes.append(s)
@@ -291,6 +295,8 @@ class Recorder:
             self.outcomes[k] = self.outcomes.get(k, 0) + v
         for k, v in o.counters.items():
             self.counters[k] = self.counters.get(k, 0) + v
+        for k, v in o.sets.items():
+            self.sets.setdefault(k, set()).update(v)
         for s in o.samples:
             if len(self.samples) < 6:
                 self.samples.append(s)
@@ -309,6 +315,10 @@ def _worker_init():
         fe._State.proc = None
     except Exception:
         pass
+    # every worker owns its engine temp directory (residue oracles look at it)
+    tdir = os.path.join(scratch(), "vtltmp-%d" % os.getpid())
+    os.makedirs(tdir, exist_ok=True)
+    os.environ["VTL_TEMP_DIRECTORY"] = tdir
 
 
 def _worker_call(args):
@@ -419,6 +429,7 @@ def finish(check, rec, tier, seed, t0, coverage_extra=None, assumptions=None):
         "outcomes": dict(sorted(rec.outcomes.items(), key=lambda kv: -kv[1])[:40]),
         "trivial_cases": int(rec.trivial),
         "counters": rec.counters,
+        "set_sizes": {k: len(v) for k, v in rec.sets.items()},
         "known_findings_reobserved": sorted(k for k in seen_known),
         "notes": rec.notes,
     }
